@@ -388,6 +388,7 @@ Inductive pfn :=
 | PSlice (a b : Z)          (* seq[a:b] / basket[a:b] / fts[a:b]            seq.py:447-498, 848-874; UserList *)
 | PAddLit (s : str)         (* seq + 'ACG'                                  seq.py:277-280 *)
 | PFilterLen (n : Z)        (* basket.filter(len_gt=n)                      seq.py:1130-1134 *)
+| PBasketFts                (* basket.fts : a NEW FeatureList holding the SAME feature objects of all sequences  seq.py:740-749 *)
 | PGet.                     (* plain attribute / item access: an alias, nothing is built *)
 
 Definition pure_cmd (f : pfn) (l : nat) (c : ocell) : cmd :=
@@ -411,6 +412,27 @@ Definition pure_cmd (f : pfn) (l : nat) (c : ocell) : cmd :=
       match seq_data c, aget kmeta (ofs c) with
       | Some d, Some m => new_seq (d ++ s) m Ret
       | _, _ => Fail EOut
+      end
+  | PBasketFts =>
+      match ocls c with
+      | KBasket =>
+          read_all (oes c) [] (fun scs =>
+            match mapM (fun vc : hval * ocell => match ocls (snd vc) with KSeq => aget kmeta (ofs (snd vc)) | _ => None end) scs with
+            | Some ms =>
+                read_all ms [] (fun mcs =>
+                  (* seq.fts is meta.setdefault('fts', FeatureList()): a sequence WITHOUT the item would be changed by the getter,
+                     that is outside the modelled domain *)
+                  match mapM (fun vc : hval * ocell => aget kfts (ofs (snd vc))) mcs with
+                  | Some fs =>
+                      read_all fs [] (fun fcs =>
+                        if forallb (fun vc : hval * ocell => match ocls (snd vc) with KFts => true | _ => false end) fcs then
+                          Alloc (OC KFts [] (flat_map (fun vc : hval * ocell => oes (snd vc)) fcs)) (fun x => Ret (HRef x))
+                        else Fail EOut)
+                  | None => Fail EOut
+                  end)
+            | None => Fail EOut
+            end)
+      | _ => Fail EOut
       end
   | PFilterLen n =>
       match ocls c with
